@@ -5,6 +5,7 @@
 #include <sys/uio.h>
 
 #include "message.h"
+#include "queue.h"
 
 #include "event.h"
 
@@ -31,8 +32,15 @@ extern int mpt_stream_dispatch(MPT_STRUCT(stream) *srm, int (*cmd)(void *, const
 	
 	/* use existing or new message */
 	if (srm->_rd._state.data.msg < 0) {
-		if ((ret = mpt_queue_recv(&srm->_rd)) < 0) {
-			return ret;
+		while ((ret = mpt_queue_recv(&srm->_rd)) < 0) {
+			int flags = mpt_stream_flags(&srm->_info);
+			/* decoder needs more work space than full queue can offer */
+			if (ret != MPT_ERROR(MissingBuffer)
+			    || !(flags & MPT_STREAMFLAG(ReadBuf))
+			    || (flags & MPT_STREAMFLAG(ReadMap))
+			    || !mpt_queue_prepare(&srm->_rd.data, 64)) {
+				return ret;
+			}
 		}
 		if (!ret) {
 			return MPT_EVENTFLAG(None);
